@@ -19,6 +19,14 @@ import threading
 TLS = threading.local()   # TLS.isolate = (fn display name, clause label or '__safety__'): clause isolation (DESIGN 2.1)
 
 
+def read_src(file):
+    """source text of a /repo file (self-test mutations substitute text in memory, never on disk)"""
+    ov = getattr(TLS, 'override', None)
+    if ov and file in ov:
+        return ov[file]
+    return open(os.path.join(REPO, file)).read()
+
+
 class Infra(Exception):
     """Lost anchor / missing item / unsupported construct: undecided (exit 2), never an alarm."""
 
@@ -534,7 +542,7 @@ def r10_index_mut_from(body: Text, types=('buf',)):
     body.sub_code('R10', r'&mut\s+(\w+)\[(\w+)\.\.\]', r'\1.verif_index_mut_from(\2)')
 
 
-def r15_bytes_match(body: Text):
+def r15_bytes_match(body: Text, strs=False):
     """R15: `match EXPR { b"lit" [if G] => A, .., name => D }` (byte-string literal patterns crash this Verus build, slice
     patterns are unsupported) becomes the first-match if-chain
     `{ let verif_scrutinee = EXPR; if verif_bytes_eq(verif_scrutinee, "lit") [&& (G)] { A } else if .. else { let name = verif_scrutinee; D } }`
@@ -561,7 +569,7 @@ def r15_bytes_match(body: Text):
                 i += 1
             end = match_brace(t, code, i)
             inner = t[i + 1:end - 1]
-            if re.search(r'(^|[\s|(])b"', inner) and re.search(r'^\s*b"', inner):
+            if re.search(r'^\s*b"', inner) or (strs and re.search(r'^\s*(//[^\n]*\n\s*)*"', inner)):
                 target = (m.start(), m.end(), i, end)
                 break
         if not target:
@@ -615,13 +623,15 @@ def r15_bytes_match(body: Text):
         out = ['{ let verif_scrutinee = %s;' % scrut]
         first = True
         for head, arm_body in arms:
-            mg = re.match(r'(b"(?:[^"\\]|\\.)*")\s*(?:if\s+(.*))?$', head, re.S)
+            head = re.sub(r'^(\s*//[^\n]*\n)+', '', head).strip()
+            mg = re.match(r'(b?"(?:[^"\\]|\\.)*")\s*(?:if\s+(.*))?$', head, re.S)
             if mg:
-                lit = mg.group(1)[1:]
+                is_bytes = mg.group(1).startswith('b')
+                lit = mg.group(1)[1:] if is_bytes else mg.group(1)
                 if '\\' in lit or not all(32 <= ord(ch) < 127 for ch in lit):
                     raise Infra('R15: byte-string literal with escapes / non-ASCII: %s' % lit)
                 # b"lit" is compared through the str literal "lit" (same ASCII bytes): Verus knows string literals, not byte strings
-                cond = 'verif_bytes_eq(verif_scrutinee, %s)' % lit
+                cond = ('verif_bytes_eq(verif_scrutinee, %s)' if is_bytes else 'verif_str_eq(verif_scrutinee, %s)') % lit
                 if mg.group(2):
                     cond += ' && (%s)' % mg.group(2).strip()
                 out.append(('if ' if first else 'else if ') + cond + ' ' + arm_body)
@@ -729,8 +739,7 @@ class Unit:
 
     def item(self, file, kind, name, pub_fields=True, edits=None, derives=None, attrs=()):
         """struct/enum/const copied verbatim (R7: pub, R8: attrs/docs dropped)."""
-        path = os.path.join(REPO, file)
-        src = open(path).read()
+        src = read_src(file)
         item_start, start, end = find_item(src, kind, name)
         t = Text(src[start:end], '%s::%s' % (file, name))
         r8_cfg(t)
@@ -767,8 +776,7 @@ class Unit:
         """Extract fn `name` verbatim, rewrite (logged), splice the contract, emit.
         header: text opening the enclosing impl (emitted before; closed after when close=True)."""
         props = props or self.props
-        path = os.path.join(REPO, file)
-        src = open(path).read()
+        src = read_src(file)
         loc = find_fn(src, name, nth, within)
         sig = Text(src[loc['sig_start']:loc['body_open']], '%s::%s(sig)' % (file, name))
         body = Text(src[loc['body_open']:loc['body_end']], '%s::%s(body)' % (file, name))
@@ -876,7 +884,7 @@ class Unit:
         """R13: `const NAME: T = EXPR;` (an initialiser that calls exec const fns) becomes
         `exec const NAME: T ensures .. { EXPR }`; the ensures clauses are obligations like any other."""
         props = props or self.props
-        src = open(os.path.join(REPO, file)).read()
+        src = read_src(file)
         item_start, start, end = find_item(src, 'const', name)
         t = Text(src[start:end], '%s::%s' % (file, name))
         r8_cfg(t)
@@ -912,7 +920,7 @@ class Unit:
     def const_guard(self, file, name, expect_norm, shim):
         """A constant whose initialiser Verus cannot evaluate (size_of): the extractor checks that the source text is
         still the expected expression and emits the evaluated shim; a changed initialiser is an infrastructure result."""
-        src = open(os.path.join(REPO, file)).read()
+        src = read_src(file)
         _, start, end = find_item(src, 'const', name)
         code = code_mask(src)
         txt = ''.join(ch for k, ch in enumerate(src[start:end]) if code[start + k])
@@ -1132,6 +1140,10 @@ def classify(unit: Unit, res):
             ob = ob or label_at(s['line_start'])
         if ob is None and prim:
             o = owner(prim[0]['line_start'])
+            if o is None:
+                # e.g. a trait-level ensures clause that an impl method fails: the other span is inside the method
+                for sp in spans:
+                    o = o or owner(sp['line_start'])
             if o is None:
                 # an error inside the prelude itself
                 out['infra'].append('verification error outside any unit function: %s @ line %s' % (msg, prim[0]['line_start']))
